@@ -40,6 +40,8 @@ pub enum Pending {
     RecvEmpty,
     Wait(u32),
     Flush,
+    /// a collector actor is inside `Reporter::report` (still holding the collector's locks)
+    Report,
     Exit,
 }
 
@@ -56,6 +58,7 @@ impl Pending {
             Pending::RecvEmpty => "empty?abandoned",
             Pending::Wait(_) => "wait",
             Pending::Flush => "flush",
+            Pending::Report => "in-report",
             Pending::Exit => "exit",
         }
     }
@@ -146,6 +149,8 @@ pub struct World {
     pub reports: Vec<Batch>,
     pub total_reports: u64,
     pub drained: u64,
+    /// the reporter itself traces from inside `report()` (programs named "...+rt")
+    pub reporter_traces: bool,
 }
 
 impl World {
@@ -162,6 +167,7 @@ impl World {
             reports: Vec::new(),
             total_reports: 0,
             drained: 0,
+            reporter_traces: false,
         }
     }
 
@@ -366,9 +372,9 @@ fn hook(p: &Point) {
             w.push_log(Some(me), Ev::DrainEnd);
         }
         Point::CycleEnd { records } => {
-            let mut w = s.world();
-            w.cycle_in_progress = false;
-            w.push_log(Some(me), Ev::CycleEnd { records: *records });
+            // (the cycle still holds the collector until `report()` has returned; the flag is
+            // cleared by the interpreter when the cycle call returns)
+            s.world().push_log(Some(me), Ev::CycleEnd { records: *records });
         }
         Point::Drained { kind, collect_ids } => {
             let mut w = s.world();
@@ -418,6 +424,21 @@ impl fastrace::collector::Reporter for CaptureReporter {
     fn report(&mut self, spans: Vec<SpanRecord>) {
         let s = sched();
         let actor = me();
+        // A reporter takes time: other threads run while a (non-atomic) collector actor is in here.
+        if let Some(a) = actor {
+            let (yields, traces) = {
+                let w = s.world();
+                (w.active && !w.actors[a].atomic_cycles, w.active && w.reporter_traces)
+            };
+            if yields {
+                s.yield_at(a, Pending::Report);
+            }
+            if traces {
+                // a reporter that is itself instrumented
+                let sp = fastrace::Span::root("reporter-span", fastrace::collector::SpanContext::new(fastrace::collector::TraceId(0xEEE), fastrace::collector::SpanId(0)));
+                drop(sp);
+            }
+        }
         let mut w = s.world();
         w.total_reports += 1;
         if !w.active {
